@@ -415,6 +415,9 @@ def p_C17(ctx):
     flow_trace(ctx, "tower", 800, 14000, chunk=50)
     # both hard-part addition chains, as exponent arithmetic modulo Phi12(q) at the real parameters
     flow_model(ctx, "ImplFinalExp", workers=1, timeout=600, xmx="2g", label="ImplFinalExp")
+    if not ctx.quick():
+        # both Miller loops (MillerAlgo) against the textbook pairing on the toy BN curve
+        flow_model(ctx, "MC_MillerToy", workers=6, timeout=3600, xmx="6g", label="MC_MillerToy")
 
 
 def flow_dual(ctx, suite, nq, nt, chunk, extra=(), label=None):
@@ -658,15 +661,16 @@ def setup():
 
     def job(args):
         name, mod, cfg, to = args
-        o, rc, dt = run_tlc(mod, cfg=cfg, workers=(9 if mod == "MC_Toy82" else 1), timeout=to, xmx="3g", tag="setup")
+        o, rc, dt = run_tlc(mod, cfg=cfg, workers=(7 if mod in ("MC_Toy82", "MC_MillerToy") else 1), timeout=to, xmx="3g", tag="setup")
         ok = rc == 0 and "No error has been found" in o
         return name, ok, dt, o
 
     jobs = [("MC_BigNat (Java overrides == pure TLA+ definitions)", "MC_BigNat", None, 1200),
             ("MC_LevelA (standard's vector, orders, bilinearity, Frobenius, codec)", "MC_LevelA", None, 1200),
-            ("MC_Toy82 (generic pairing modules on a toy BN curve, native integers, no Java)", "MC_Toy82", None, 1800)]
+            ("MC_Toy82 (generic pairing modules on a toy BN curve, native integers, no Java)", "MC_Toy82", None, 1800),
+            ("MC_MillerToy (transcribed Miller loops = textbook pairing on the toy curve)", "MC_MillerToy", None, 1800)]
     bad = []
-    with cf.ThreadPoolExecutor(max_workers=3) as ex:
+    with cf.ThreadPoolExecutor(max_workers=4) as ex:
         for name, ok, dt, o in ex.map(job, jobs):
             print(f"[setup] {name}: {'ok' if ok else 'FAILED'} in {dt:.0f}s")
             if not ok:
